@@ -1,6 +1,7 @@
 package main
 
 import (
+	"sync"
 	"encoding/json"
 	"fmt"
 	"os"
@@ -517,22 +518,41 @@ var probeWants = map[string][]string{
 // k <= K (thorough) or a sample of them (quick), each with delta 0 and "half the gap to the next event".
 func c12Batch(bin string, rs *cf.Rng, tier string, a *agg) []*cf.Case {
 	var out []*cf.Case
-	for len(out) < 128 {
+	tweak := func(b *cf.Case) bool {
+		b.Property = "C12"
+		if b.Config.Idempotent {
+			return false // the idempotent producer's retry path is judged (and found wanting) under C01/C05
+		}
+		if f := b.Config.Flush; f.FreqMs == 0 && (f.Messages > 0 || f.Bytes > 0) {
+			b.Config.Flush.FreqMs = 5 // size trigger without frequency: known finding KF-C01-flushhold
+		}
+		return true
+	}
+	// base cases, dry-run in parallel to count their model events
+	var bases []*cf.Case
+	for len(bases) < 16 {
 		fam := []string{"C01", "C01", "C03", "C03", "C07", "C07", "C06", "C15"}[rs.Intn(8)]
 		base := gen.Generate(fam, rs.U64())
-		base.Property = "C12"
-		if base.Config.Idempotent {
-			continue // the idempotent producer's retry path is judged (and found wanting) under C01/C05
+		if tweak(base) {
+			bases = append(bases, base)
 		}
-		if f := base.Config.Flush; f.FreqMs == 0 && (f.Messages > 0 || f.Bytes > 0) {
-			base.Config.Flush.FreqMs = 5 // size trigger without frequency: known finding KF-C01-flushhold
+	}
+	events := map[uint64]int{}
+	var mu sync.Mutex
+	runMany(bin, bases, 16, func(o *outcome) bool {
+		if o.res != nil {
+			mu.Lock()
+			events[o.c.Seed] = o.res.Events
+			mu.Unlock()
 		}
-		dry := execCase(bin, base, false)
-		if dry.res == nil {
+		return true
+	})
+	for _, base := range bases {
+		K, ok := events[base.Seed]
+		if !ok {
 			continue
 		}
 		a.c12Bases++
-		K := dry.res.Events
 		if K > 400 {
 			K = 400
 		}
@@ -555,6 +575,15 @@ func c12Batch(bin string, rs *cf.Rng, tier string, a *agg) []*cf.Case {
 				out = append(out, c)
 			}
 		}
+		// ... and so it is for further histories that are not enumerated: shutting down right after the last
+		// operation catches components mid-retry, backing off or in an election window
+		for i := 0; i < 8; i++ {
+			f2 := []string{"C01", "C01", "C02", "C04", "C03", "C07", "C06"}[rs.Intn(7)]
+			b := gen.Generate(f2, rs.U64())
+			if tweak(b) {
+				out = append(out, b)
+			}
+		}
 	}
 	return out
 }
@@ -562,6 +591,6 @@ func c12Batch(bin string, rs *cf.Rng, tier string, a *agg) []*cf.Case {
 func init() {
 	specTweaks["C12"] = func(s *propSpec) {
 		s.level = "fault_enumeration"
-		s.rule = "a base case of one scenario family (producer, consumer, group, offset manager, client) is generated from VERIF_SEED and run once to count its model events K; then the same case is re-run with 'close everything, in the documented order, right after event k' for every k <= K (thorough) or 6 sampled k (quick), each at delta 0 and at half the fake-time gap to the next event; distinct = distinct observable trace; non-trivial = a fault fired or several application goroutines were active"
+		s.rule = "a base case of one scenario family (producer, consumer, group, offset manager, client) is generated from VERIF_SEED and run once to count its model events K; then the same case is re-run with 'close everything, in the documented order, right after event k' for every k <= K (thorough) or 6 sampled k (quick), each at delta 0 and at half the fake-time gap to the next event; beside each enumerated base, eight more generated histories are run with shutdown at the natural end of their workload only; distinct = distinct observable trace; non-trivial = a fault fired or several application goroutines were active"
 	}
 }
